@@ -63,6 +63,10 @@ func Plan(prop, tier string) []Mode {
 			ms = append(ms, seq("full32", 256, 4))
 		}
 		return ms
+	case "C03":
+		return []Mode{seq("seq", pick(6000, 600000), pick(400, 8000))}
+	case "C06":
+		return []Mode{seq("seq", pick(10000, 1000000), pick(700, 15000))}
 	case "C02":
 		return []Mode{seq("seq", pick(600, 40000), pick(40, 500))}
 	}
